@@ -55,7 +55,8 @@ class CompileMapper(StringifyMapper):
     def map_polynomial(self, expr, enclosing_prec):
         # Use Horner's scheme to evaluate the polynomial
 
-        sbase = self(expr.base, PREC_POWER)
+        # +1: ** groups to the right, a power as base needs parentheses
+        sbase = self(expr.base, PREC_POWER+1)
 
         def stringify_exp(exp):
             if exp == 0:
@@ -75,7 +76,8 @@ class CompileMapper(StringifyMapper):
             result = "({}+{}){}".format(result, self(coeff, PREC_SUM),
                     stringify_exp(exp-next_exp))
 
-        if enclosing_prec > PREC_SUM and len(expr.data) > 1:
+        if enclosing_prec > PREC_SUM:
+            # also for a single term: its text is a product
             return f"({result})"
         else:
             return result
